@@ -43,7 +43,6 @@ func labelMatches
 
 func seqOfLabel
   props C15
-  requires c != nil
   ensures no-label: label == "" ==> result == -1
   ensures skip-to-first-names-the-oldest-row-with-that-label: label != "" && first ==> result == ite(chainHas(c.head, heapof(frame.prev), arrayof(g, c.head, labelMatches(g.label, label, subsets))) && chainFirstIdx(c.head, c.nrows - 1, heapof(frame.prev), arrayof(g, c.head, labelMatches(g.label, label, subsets))) >= 0, c.startSeq + chainFirstIdx(c.head, c.nrows - 1, heapof(frame.prev), arrayof(g, c.head, labelMatches(g.label, label, subsets))), -1)
   ensures skip-to-last-names-the-newest-row-with-that-label: label != "" && !first ==> result == ite(chainHas(c.head, heapof(frame.prev), arrayof(g, c.head, labelMatches(g.label, label, subsets))), c.startSeq + chainLastIdx(c.head, c.nrows - 1, heapof(frame.prev), arrayof(g, c.head, labelMatches(g.label, label, subsets))), -1)
@@ -52,7 +51,6 @@ func seqOfLabel
 
 func (*Engine).skipTo
   props C15
-  requires c != nil
   ensures past-last-row-shares-no-row: e.spec.Skip == 0 ==> result == c.startSeq + c.nrows
   ensures next-row: e.spec.Skip == 1 ==> result == c.startSeq + 1
   observe at := seqOfLabel
@@ -73,7 +71,6 @@ extern (*Engine).project
 
 func (*Engine).emitOne
   props C15
-  requires c != nil
   modifies p.matchNo, c.matchNo, p.nextStart, *survivors
   ensures match-number-counts-up: p.matchNo == old(p.matchNo) + 1 && c.matchNo == p.matchNo
   ensures survivors-respect-skip: forall(i, 0, len(*survivors), (*survivors)[i].startSeq >= p.nextStart)
@@ -137,9 +134,11 @@ extern (*Engine).emitLazy
   props C15
   modifies *
 
-extern (*Engine).emitGreedy
+func (*Engine).emitGreedy
   props C15
   modifies *
+  before emitOne no-live-run-began-at-or-before-the-start-being-emitted: forall(i, 0, len(*survivors), (*survivors)[i].startSeq > s__2) && s__2 >= p.nextStart
+  loop 3 invariant !blocked ==> forall(j, 0, $i, (*survivors)[j].startSeq > s__2)
 
 extern (*Engine).capPending
   props C15
